@@ -489,6 +489,21 @@ def basis_rule(ctx, d3):
             else:
                 d3.fail(cons, 'no-write-back', 'a normal return skips the write-back of the reacted copy', f, f.node,
                         witness=' -> '.join('L%d' % x.lineno for x in wit if x.lineno))
+        if mname != 'conversion':
+            # ... and before the configuration is restored: the restore re-binds the stream's data to its own package, after which
+            # `original` (the mass view made while the reaction's package was in place) no longer wraps the stream's storage
+            late = None
+            for nd in cfg.nodes:
+                if rs(nd):
+                    reach = cfg.reachable_from(nd)
+                    for other_ in cfg.nodes:
+                        if wb(other_) and other_.id in reach:
+                            late = other_
+            if late is None:
+                d3.ok(cons, 'the write-back happens before the chemicals configuration is restored', f)
+            else:
+                d3.fail(cons, 'write-back-after-restore', 'the reacted copy is written back after material._imol.reset_chemicals(*config) has restored the stream\'s own '
+                        'package: the view it is written through no longer wraps the stream\'s storage, the reaction is lost', f, late.ast)
         okk, wit = cfg.must_pass(start, rs)
         if okk:
             d3.ok(cons, 'every normal path restores the stream\'s chemicals configuration', f)
